@@ -128,6 +128,10 @@ Ltac wire_step :=
   | |- context [Z.testbit ?x ?n] =>
       is_zlit n; let lo := eval vm_compute in (2 ^ n) in
       rewrite (wtestbit_top x n lo) by first [ reflexivity | lia | wire_range ]
+  (* x >> n  ~>  x / 2^n *)
+  | |- context [Z.shiftr ?x ?n] =>
+      is_zlit n; let p := eval vm_compute in (2 ^ n) in
+      rewrite (Z.shiftr_div_pow2 x n) by lia; change (2 ^ n) with p
   (* (t << 8) mod 2^64 | byte  ~>  sum *)
   | |- context [Z.lor ?a ?x] =>
       first [ rewrite (wlor_low a x) by first [ apply wshl8_low | wire_range ]
@@ -153,6 +157,7 @@ Ltac wire_close :=
   first [ reflexivity
         | exfalso; lia
         | exfalso; congruence
+        | exfalso; wire_range
         | wire_norm; first [ reflexivity | repeat f_equal; lia ]
         | leaf_eq ].
 
